@@ -59,3 +59,32 @@ func VerifCheckDistinfo(pkgsrcRoot, pkgDir, distinfoText string, autofix bool) (
 	out = buf.String()
 	return
 }
+
+// VerifC18Reset replaces the global state by a fresh one (as at program start),
+// so that a following sequence of VerifComputePatchSha1Hex calls starts without
+// any history (file cache, CVS entries memo, ...).
+func VerifC18Reset() {
+	var buf bytes.Buffer
+	G = NewPkglint(&buf, &buf)
+}
+
+// VerifIsCommitted runs isCommitted(dir/base) on a fresh global state and also
+// returns what loadCvsEntries gave for that file: the keys of the map (unsorted)
+// and whether the map is nil; out is everything that was logged ("Invalid line").
+func VerifIsCommitted(dir, base string) (committed bool, keys []string, isNil bool, out string, panicked string) {
+	var buf bytes.Buffer
+	G = NewPkglint(&buf, &buf)
+	panicked = VerifPanic(func() {
+		file := NewCurrPathString(dir + "/" + base)
+		committed = isCommitted(file)
+		entries := G.loadCvsEntries(file)
+		isNil = entries == nil
+		for k := range entries {
+			keys = append(keys, k.String())
+		}
+	})
+	G.Logger.out.Flush()
+	G.Logger.err.Flush()
+	out = buf.String()
+	return
+}
